@@ -526,7 +526,15 @@ class _SSeq(object):
                                    list(self._e)[:8])
 
     def __str__(self):
-        raise Unsupported('str() of a symbolic %s' % type(self).__name__)
+        # uninstrumented code (the standard library) asking for a real
+        # str: fork over the values of at most one free symbolic element
+        if self._is_bytes:
+            raise Unsupported('str() of a symbolic %s' % type(self).__name__)
+        from .rt import concretize_seq
+        try:
+            return concretize_seq(self, 1)
+        except Unsupported:
+            raise Unsupported('str() of a symbolic %s' % type(self).__name__)
 
     def __format__(self, spec):
         raise Unsupported('format() of a symbolic %s' % type(self).__name__)
